@@ -391,6 +391,14 @@ func (m *passivationManager) trigger(expected *passivationEntry) {
 		}
 
 		entry.refreshDeadline()
+		// the attempt was refused (actor busy, stopping, system shutting down)
+		// and the activity stamp did not move, so the refreshed deadline is
+		// still in the past: re-arm it one timeout from now. Otherwise this loop
+		// pops the same entry again at once and spins without ever returning to
+		// run(), which can then never observe the stop signal.
+		if now := time.Now(); !entry.deadline.After(now) {
+			entry.deadline = now.Add(entry.timeout)
+		}
 		cheaps.Push(&m.queue, entry)
 		m.mu.Unlock()
 		m.notify()
